@@ -29,9 +29,9 @@ def jobs(tier, ctx):
                     out.append(j)
     # (b) byte-block arrays from the real allocator (struct hack as the driver allocates it: CBMC bounds failures are exact),
     #     concrete (size, index) pairs including the boundary and 32-bit-truncation indices; thorough tier (14 GB, ~5 min each)
-    idx = [] if tier == 'quick' else [-2147483649, -1, 0, 1, 2, 2147483648, 4294967296, 4294967297, 9223372036854775807]
+    idx = [] if tier == 'quick' else [-1, 0, 2, 4294967296]
     for op in ('F_INDEX', 'F_RINDEX'):
-        for ln in ((2,) if tier == 'quick' else (1, 2)):
+        for ln in (2,):
             for k in idx:
                 add(op, ['NUM', 'ARRM'], extra_defs=['NUMK0=%dLL' % k, 'LENK1=%d' % ln], tag='len%d.i%s' % (ln, str(k).replace('-', 'm')))
     # element lvalues (a[i] = ..., a[<i] = ...): the index stays fully symbolic (no element is read by these opcodes)
